@@ -261,7 +261,7 @@ func likePattern(t *rapid.T, c *Col, label string) string {
 	}
 	r := []rune(base)
 	var sb strings.Builder
-	mode := rapid.IntRange(0, 8).Draw(t, label+".mode")
+	mode := rapid.SampledFrom([]int{0, 1, 2, 3, 4, 5, 6, 7, 7, 7, 8, 8}).Draw(t, label+".mode")
 	switch mode {
 	case 7: // prefix%suffix taken from one value; the two parts may overlap in it (then only longer values match)
 		i := rapid.IntRange(0, len(r)).Draw(t, label+".i")
@@ -437,6 +437,10 @@ var goIntTypes = []string{"int", "int64", "int32", "int16", "int8", "uint", "uin
 // goTyped converts a float64 value to the named Go numeric type (the value must fit).
 func goTyped(v float64, typ string) any {
 	switch typ {
+	case "bigint64":
+		return bigBaseInt + int64(v)
+	case "biguint64":
+		return bigBaseUint + uint64(int64(v))
 	case "int":
 		return int(v)
 	case "int64":
@@ -463,7 +467,44 @@ func goTyped(v float64, typ string) any {
 	return v
 }
 
+// bigint64 / biguint64: order-isomorphic images of small integers beyond float64's exact range
+// (bigBaseInt + v, bigBaseUint + v). The case files keep the small v; unbig maps results back.
+const (
+	bigBaseInt  = int64(1) << 53
+	bigBaseUint = uint64(1) << 63
+)
+
+// unbig maps every int64 / uint64 near the big bases back to the small number it stands for, deeply.
+func unbig(v any) any {
+	switch x := v.(type) {
+	case int64:
+		if x > bigBaseInt-(1<<41) && x < bigBaseInt+(1<<41) {
+			return float64(x - bigBaseInt)
+		}
+	case uint64:
+		if x > bigBaseUint-(1<<41) && x < bigBaseUint+(1<<41) {
+			return float64(int64(x - bigBaseUint))
+		}
+	case map[string]any:
+		m := make(map[string]any, len(x))
+		for k, e := range x {
+			m[k] = unbig(e)
+		}
+		return m
+	case []any:
+		a := make([]any, len(x))
+		for i, e := range x {
+			a[i] = unbig(e)
+		}
+		return a
+	}
+	return v
+}
+
 func fitsGoType(v float64, typ string) bool {
+	if typ == "bigint64" || typ == "biguint64" {
+		return v == math.Trunc(v) && math.Abs(v) < (1<<40)
+	}
 	if typ == "float32" {
 		return float64(float32(v)) == v
 	}
